@@ -246,11 +246,19 @@ def _run(case, triples, pb, malformed=None, short=None):
         k = case["neg_at"] % len(v)
         v[k] = -abs(v[k]) - 1.5
     exc = None
+    wash = case["wash"]
+    if _np_wash(case):
+        wash = np.int64(wash)
     try:
-        wl.transfer(S, s, D, d, v, label=case["label"], wash_scheme=case["wash"], partition_by=pb, **_kwargs(case["kw"]))
+        wl.transfer(S, s, D, d, v, label=case["label"], wash_scheme=wash, partition_by=pb, **_kwargs(case["kw"]))
     except Exception as e:  # noqa
         exc = e
     return wl, S, D, exc
+
+
+def _np_wash(case):
+    """Every fifth case with a numeric scheme passes it as a numpy integer (what iterating an array of schemes gives)."""
+    return isinstance(case["wash"], int) and (len(case["triples"]) + case["wash"] + len(str(case["M"]))) % 5 == 0
 
 
 def _parse_stream(obs, case, records, tag):
@@ -333,6 +341,11 @@ def check_case(case) -> Obs:
         obs.cls("auto_split:off")
     wl, S, D, exc = _run(case, triples, case["pb"])
     obs.units = 1
+    if _np_wash(case):
+        obs.cls("wash-scheme-as-numpy-integer")
+        if exc is not None:
+            obs.cls("numpy-wash-scheme-refused")  # allowed: the documented type is int
+            return obs
     if exc is not None:
         obs.bad("C07/valid-rejected", f"valid transfer raised {type(exc).__name__}: {exc}")
         return obs
@@ -401,7 +414,8 @@ def check_case(case) -> Obs:
         wl2, S2, D2, exc2 = _run(case, tr, pb)
         obs.units += 1
         if exc2 is not None:
-            obs.bad("C07/variant-rejected", f"{tag}: raised {type(exc2).__name__}: {exc2}")
+            if not _np_wash(case):
+                obs.bad("C07/variant-rejected", f"{tag}: raised {type(exc2).__name__}: {exc2}")
             continue
         c2 = dict(case, pb=pb)
         g2 = _parse_stream(obs, c2, list(wl2), tag)
